@@ -87,18 +87,33 @@ def run_case(case: dict) -> dict:
     ev = []
     net = canopen.Network()
 
+    pending = []
+
     def on_send(msg):
         q = bytes(msg.data)
+        late = slave.reply_mode == "late"
+        if late:
+            slave.reply_mode = "ok"
         r = slave.on_frame(q) if len(q) == 8 else []
-        ev.append({"e": "x", "id": msg.arbitration_id, "q": B(q), "r": [B(f) for f in r]})
+        if late:
+            slave.reply_mode = "late"
+        ev.append({"e": "x", "id": msg.arbitration_id, "q": B(q), "r": [B(f) for f in r], "late": late})
         for f in r:
-            net.notify(0x7E4, bytearray(f), 0.0)
+            if late:        # the answer arrives only after the master has given up
+                pending.append(f)
+            else:
+                net.notify(0x7E4, bytearray(f), 0.0)
     net.bus = FakeBus(on_send)
     net.lss.responses = hbus.InstantQueue()
     lss = net.lss
     for op in case["ops"]:
         name = op["name"]
         slave.reply_mode = op.get("reply", "ok")
+        if name == "newdev":
+            # the scanned device has been configured and removed; another unconfigured one appears
+            slave.__init__(op["ident"], 255, True)
+            ev.append({"e": "newdev", "ident": [B(struct.pack("<I", x)) for x in op["ident"]]})
+            continue
         if name == "fast_scan":
             try:
                 ok, ids = lss.fast_scan()
@@ -135,6 +150,9 @@ def run_case(case: dict) -> dict:
             e["result"] = "other:" + type(exc).__name__
             e["val"] = []
         ev.append(e)
+        for f in pending:
+            net.notify(0x7E4, bytearray(f), 0.0)
+        del pending[:]
     for i, e in enumerate(ev):
         e["n"] = i + 1
     return {"ev": ev, "ident": [B(struct.pack("<I", x)) for x in ident], "present": bool(case.get("present", True)),
